@@ -19,8 +19,9 @@
 (*          cliCert  : "none" | "trusted" | "otherCA" | "expired"          *)
 (*          cliCA    : BOOLEAN  (collector configured with a client CA)    *)
 (*          peerMax  : 11 | 12 | 13  (highest version the harness peer offers) *)
-(*          addr     : "ip" | "host"  (how the exporter is told to reach   *)
-(*                     the collector: 127.0.0.1 or localhost)              *)
+(*          addr     : "ip" | "host" | "ip2" (how the exporter is told to  *)
+(*                     reach the collector: 127.0.0.1, localhost, or a     *)
+(*                     second collector at 127.0.0.2)                      *)
 (*          srvChain : "A" | "Bbundle" (collector side: its certificate is *)
 (*                     issued by the client CA's own CA, or by another CA  *)
 (*                     whose certificate is shipped in the ServerCert PEM) *)
@@ -42,7 +43,10 @@ SANs(cert) == CASE cert \in {"trusted", "otherCA", "selfSigned"} -> {"collector.
                 [] cert = "hostSAN"  -> {"localhost"}
                 [] cert = "wrongSAN" -> {"wrong.verif", "10.9.9.9"}
                 [] OTHER             -> {}
-Contacted(cell) == IF "addr" \in DOMAIN cell /\ cell.addr = "host" THEN "localhost" ELSE "127.0.0.1"
+Contacted(cell) == IF "addr" \notin DOMAIN cell THEN "127.0.0.1"
+                   ELSE CASE cell.addr = "host" -> "localhost"
+                          [] cell.addr = "ip2"  -> "127.0.0.2"      \* a second collector, on another address
+                          [] OTHER              -> "127.0.0.1"
 WantedName(cell) == CASE cell.srvName = "match"    -> "collector.verif"
                       [] cell.srvName = "mismatch" -> "other.verif"
                       [] OTHER                     -> Contacted(cell)
